@@ -126,8 +126,21 @@ def T(d):
     if d is None:
         return None
     if d[0] == "ARRAY":
-        return sa.ARRAY(T(d[1]))
-    return TYPES[d[0]](*d[1:])
+        return sa.ARRAY(T(d[1]), **(d[2] if len(d) > 2 else {}))
+    args = list(d[1:])
+    kw = args.pop() if args and isinstance(args[-1], dict) else {}      # trailing dict = keyword arguments
+    return type_class(d[0])(*args, **kw)
+
+
+def type_class(name):
+    """'Numeric' (TYPES), any public name of sqlalchemy.types ('DECIMAL'), or '<dialect>.<NAME>' ('mysql.VARCHAR')"""
+    if TYPES.get(name) is not None:
+        return TYPES[name]
+    if "." in name:
+        import importlib
+        mod, attr = name.rsplit(".", 1)
+        return getattr(importlib.import_module("sqlalchemy.dialects." + mod), attr)
+    return getattr(sa.types, name)
 
 
 class Ctx:
@@ -386,7 +399,42 @@ def OPT(ctx, d):
     raise KeyError(t)
 
 
+def _set_arg(ctx, v):
+    """SET argument of an upsert: {name: value} | ["dict", [[key, value], ...]] (key: a name or an expression descriptor —
+    Table column, column("x"), aliased column, ORM attribute ...) | ["pairs", [[key, value], ...]] (list of 2-tuples, ordered)
+    | ["coll", "excluded" | "inserted" | "table"] (a ColumnCollection)"""
+    if isinstance(v, dict):
+        return {c_: E(ctx, x) for c_, x in v.items()}
+    if v[0] == "dict":
+        return {E(ctx, k_): E(ctx, x) for k_, x in v[1]}
+    if v[0] == "pairs":
+        return [(E(ctx, k_), E(ctx, x)) for k_, x in v[1]]
+    if v[0] == "coll":
+        return ctx.dml.table.c if v[1] == "table" else getattr(ctx.dml, v[1])
+    raise KeyError("unknown SET form %r" % (v[0],))
+
+
+def _table_constraint(tbl, spec):
+    """constraint *object* of the target table: ["pk"] | ["index", i] (indexes sorted by name) | ["unique"|"check"|"fk", i]"""
+    if not isinstance(tbl, sa.Table):
+        tbl = sa.inspect(tbl).local_table
+    if spec[0] == "index":
+        return sorted(tbl.indexes, key=lambda i: str(i.name))[spec[1]]
+    return _find_constraint(tbl, spec)
+
+
+def EXT(ctx, d):
+    """dialect syntax extension (HasSyntaxExtensions.ext): ["mysql_limit", expr] | ["pg_distinct_on", [exprs]]"""
+    if d[0] == "mysql_limit":
+        return _my.limit(E(ctx, d[1]))
+    if d[0] == "pg_distinct_on":
+        return _pg.distinct_on(*[E(ctx, x) for x in d[1]])
+    raise KeyError("unknown syntax extension %r" % (d[0],))
+
+
 def _common(ctx, s, d):
+    for x in d.get("ext", ()):
+        s = s.ext(EXT(ctx, x))
     for p in d.get("prefixes", ()):
         s = s.prefix_with(*( [p] if isinstance(p, str) else [p[0]]), **({} if isinstance(p, str) else {"dialect": p[1]}))
     for p in d.get("suffixes", ()):
@@ -486,7 +534,7 @@ def S(ctx, d):
             if oc.get("index_elements"):
                 kw["index_elements"] = [E(ctx, x) for x in oc["index_elements"]]
             if oc.get("constraint"):
-                kw["constraint"] = oc["constraint"]
+                kw["constraint"] = oc["constraint"] if isinstance(oc["constraint"], str) else _table_constraint(tbl, oc["constraint"])
             if oc.get("index_where") is not None:
                 kw["index_where"] = E(ctx, oc["index_where"])
             if oc["do"] == "nothing":
@@ -494,10 +542,13 @@ def S(ctx, d):
             else:
                 if oc.get("where") is not None:
                     kw["where"] = E(ctx, oc["where"])
-                s = s.on_conflict_do_update(set_={c_: E(ctx, v) for c_, v in oc["set"].items()}, **kw)
+                s = s.on_conflict_do_update(set_=_set_arg(ctx, oc["set"]), **kw)
         od = d.get("on_dup")
         if od is not None:
-            s = s.on_duplicate_key_update(**{c_: E(ctx, v) for c_, v in od.items()})
+            if isinstance(od, dict):
+                s = s.on_duplicate_key_update(**{c_: E(ctx, v) for c_, v in od.items()})
+            else:
+                s = s.on_duplicate_key_update(_set_arg(ctx, od))
         if d.get("returning"):
             s = s.returning(*[E(ctx, x) for x in d["returning"]], **(d.get("returning_kw") or {}))
         if d.get("return_defaults"):
@@ -1196,6 +1247,8 @@ def _type_variants(t):
         return [["ARRAY", x] for x in _type_variants(t[1])]
     for sib in _TYPESIB.get(t[0], []):
         out.append([sib])
+    if any(not isinstance(x, int) or isinstance(x, bool) for x in t[1:]):
+        return out + [[t[0]]]                               # keyword / non-integer arguments: varied by C02's type-argument scope
     if len(t) > 1:
         out.append([t[0], t[1] + 1] + t[2:])
         out.append([t[0]])
